@@ -69,7 +69,7 @@ theorem write_entry_spec : (e : BEntry) → (b : Bytes) → (g : Nat) → 2 * bd
     obtain ⟨b', hm, hl, hrun⟩ := build_arr_loop es
       ((b ++ u32be (headerWord C.ARRAY_CONTAINER_TAG es.length)) ++ zeros (es.length * 4))
       (b.length + 4) (4 + es.length * 4) g (by omega) hf.1
-      (by rw [hlen0]; omega) (by rw [hlen0]; omega) (by omega)
+      (by omega) (by omega) (by omega)
     have hspec := buildEntry_spec (.arr es) b
     simp only [buildEntry, hm] at hspec
     simp only [Res.ok.injEq, Prod.mk.injEq] at hspec
@@ -89,7 +89,7 @@ theorem write_entry_spec : (e : BEntry) → (b : Bytes) → (g : Nat) → 2 * bd
         = b.length + 4 + kvs.length * 8 := by simp [u32be, zeros]; omega
     obtain ⟨b1, hm1, hl1, hrun1⟩ := build_obj_keys kvs
       ((b ++ u32be (headerWord C.OBJECT_CONTAINER_TAG kvs.length)) ++ zeros (kvs.length * 8))
-      (b.length + 4) (4 + kvs.length * 8) (by rw [hlen0]; omega) (by rw [hlen0]; omega) (by omega)
+      (b.length + 4) (4 + kvs.length * 8) (by omega) (by omega) (by omega)
     rw [hlen0] at hl1
     obtain ⟨b', hm, hl, hrun⟩ := build_obj_vals kvs b1 (b.length + 4 + kvs.length * 4)
       (4 + kvs.length * 8 + (bkeyBytes kvs).length) g (by omega) hf.1
@@ -211,7 +211,7 @@ theorem array_build_into_agrees (es : List BEntry) (b : Bytes) (g : Nat) (hg : 2
   obtain ⟨b', hm, hl, hrun⟩ := build_arr_loop es
     ((b ++ u32be (headerWord C.ARRAY_CONTAINER_TAG es.length)) ++ zeros (es.length * 4))
     (b.length + 4) (4 + es.length * 4) g (by omega) hf.1
-    (by rw [hlen0]; omega) (by rw [hlen0]; omega) (by omega)
+    (by omega) (by omega) (by omega)
   have hspec := buildEntry_spec (.arr es) b
   simp only [buildEntry, hm] at hspec
   simp only [Res.ok.injEq, Prod.mk.injEq] at hspec
@@ -233,7 +233,7 @@ theorem object_build_into_agrees (kvs : List (Bytes × BEntry)) (b : Bytes) (g :
       = b.length + 4 + kvs.length * 8 := by simp [u32be, zeros]; omega
   obtain ⟨b1, hm1, hl1, hrun1⟩ := build_obj_keys kvs
     ((b ++ u32be (headerWord C.OBJECT_CONTAINER_TAG kvs.length)) ++ zeros (kvs.length * 8))
-    (b.length + 4) (4 + kvs.length * 8) (by rw [hlen0]; omega) (by rw [hlen0]; omega) (by omega)
+    (b.length + 4) (4 + kvs.length * 8) (by omega) (by omega) (by omega)
   rw [hlen0] at hl1
   obtain ⟨b', hm, hl, hrun⟩ := build_obj_vals kvs b1 (b.length + 4 + kvs.length * 4)
     (4 + kvs.length * 8 + (bkeyBytes kvs).length) g (by omega) hf.1
